@@ -489,6 +489,33 @@ def obs_block_info(ctx, k, act, d, nv, problems):
         fn.calls.clear()
 
 
+def obs_block_info2(ctx, k, act, d, nv, problems):
+    """MapBlocks2 (two inputs of different rank, drop_axis, block_info): every invocation's per-input block_info vs the
+    block actually handed over and the input's layout when map_blocks was called"""
+    prog = ctx["prog"]
+    mbs = [(j, a) for j, a in enumerate(prog[: k + 1]) if a["a"] == "MapBlocks2"]
+    exp = ctx["env"][k]
+    if not mbs or exp["kind"] == "err":
+        return
+    fns = []
+    for j, a in mbs:
+        fn = getattr(ctx["da_env"][a["out"] - 1], "_verif_blockfn2", None)
+        if fn is None:
+            return
+        fn.calls.clear()
+        fns.append((j, a, fn))
+    try:
+        with warnings.catch_warnings():
+            warnings.simplefilter("ignore")
+            got = spec_value(run_graph(fresh(d), True)[2])
+    except Exception as ex:
+        got = dict(RAISED, err=f"{type(ex).__name__}: {str(ex)[:160]}")
+    for j, a, fn in fns:
+        ctx["emit"].append({"fn": "block_info2", "at": k, "mb_at": j, "drop": a["drop"], "snaps": [[list(c) for c in s] for s in fn.snaps],
+                            "calls": list(fn.calls), "got": got, "expect": {"shape": exp["shape"], "kind": exp["kind"], "data": exp["data"]}})
+        fn.calls.clear()
+
+
 # ------------------------------------------------------------------ C28 (unknown chunk sizes)
 def obs_unknown(ctx, k, act, d, nv, problems):
     prog = ctx["prog"]
@@ -578,6 +605,12 @@ def entry_case(d, expect, at=0, other=None):
         add(kind, persisted(kind), lambda kind=kind: box[kind])
     add("x.optimize", lambda: fresh(d).optimize().compute(scheduler="sync"))
     add("x.to_delayed", lambda: _delayed_value(fresh(d)))
+    # through the very object the program holds (its cached materialization is part of what the user sees: after an
+    # in-place operation on an already materialized collection every entry point must see the new expression)
+    add("x.compute:same-object", lambda: d.compute(scheduler="sync"))
+    add("x.persist:same-object", lambda: box.__setitem__("same", d.persist(scheduler="sync")) or box["same"].compute(scheduler="sync"),
+        lambda: box["same"])
+    add("x.to_delayed:same-object", lambda: _delayed_value(d))
     # diagnostic for finding F01: does the graph dask's generic path builds (dask.optimize / dask.persist hand the raw
     # expression to dask's own optimizer) still define this collection's keys?
     def generic():
